@@ -150,7 +150,8 @@ def rule_memo_escape(ctx, repo):
     cm = repo.mod(C)
     battery = [(K, "get_notes", ["C"]), (K, "get_notes", ["eb"]), (K, "get_key_signature_accidentals", ["A"]),
                (C, "triads", ["C"]), (C, "sevenths", ["G"]), (C, "triad", ["E", "C"]), (C, "seventh", ["E", "C"]),
-               (C, "from_shorthand", ["Am7"]), (C, "from_shorthand", ["C|G7"]),
+               (C, "from_shorthand", ["Am7"]), (C, "from_shorthand", ["C|G7"]), (C, "from_shorthand", ["NC"]), (C, "from_shorthand", ["N.C."]),
+               (C, "from_shorthand", ["Am/C"]), (C, "from_shorthand", [["C", "NC"]]),
                (P, "to_chords", [["I", "V7"], "C"]), (P, "to_chords", ["bIIIm7", "F"]), (P, "to_chords", ["vi", "Eb"])]
     for fn in ["tonic", "tonic7", "supertonic", "mediant7", "subdominant", "dominant7", "submediant", "subtonic7",
                "I", "ii7", "III", "IV7", "V", "vi7", "VII", "vii7"]:
@@ -188,6 +189,30 @@ def rule_memo_escape(ctx, repo):
             elif not m1:
                 ok, why = False, "the function returned no list (%r): battery entry out of date" % (r1,)
         ctx.check(ok, R, "%s.%s%s" % (modname.split(".")[-1], fname, args), fi.where(), "%s(%s)" % (fname, ", ".join(repr(a) for a in args)), why)
+    # a request that fails must fail the same way when repeated (no half-filled memo entry left behind)
+    for modname, fname in ((K, "get_notes"), (K, "get_key_signature"), (K, "get_key_signature_accidentals"), (C, "triads"), (C, "sevenths"),
+                           (C, "tonic"), (C, "dominant7"), (C, "I"), (C, "vii7")):
+        m_ = repo.mod(modname)
+        if fname not in m_.functions:
+            continue
+        fi = m_.func(fname)
+        for bad in ("G#", "H", "db", "Fb", ""):
+            def thrice(it, fi=fi, bad=bad):
+                out = []
+                for _ in range(3):
+                    try:
+                        out.append(("return", it.call_function(fi, [bad], {})))
+                    except RaiseEx as r:
+                        out.append(("raise", r.exc))
+                return out
+            try:
+                paths = explore(lambda ch: Interp(repo, ch, max_depth=30), thrice)
+            except CannotDecide as e:
+                raise AnalysisError("%s.%s(%r) repeated: %s" % (modname, fname, bad, e))
+            ok = len(paths) == 1 and paths[0].kind == "return" and len({repr(o) for o in paths[0].value}) == 1
+            ctx.check(ok, R, "%s.%s[%r x3]" % (modname.split(".")[-1], fname, bad), fi.where(), "%s(%r) asked three times" % (fname, bad),
+                      "the same request gives different outcomes depending on what was asked before: %s" % (
+                          [short(repr(o), 60) for o in paths[0].value] if len(paths) == 1 and paths[0].kind == "return" else [(p.kind, p.value) for p in paths]))
     # scales hand out fresh lists too
     sm = repo.mod(S)
     for cname, tonic, meth in (("Major", "C", "ascending"), ("NaturalMinor", "A", "descending"), ("HarmonicMinor", "E", "ascending"), ("Chromatic", "C", "ascending")):
